@@ -751,6 +751,15 @@ Definition pinned_cfg : cfg := {|
   g_text_end := [LF];
   g_text_se := true
 |}.
+(* the pinned constants with another error handler for the CSV file (the proposed repair of the strict
+   encoder changes exactly this one fact) *)
+Definition set_csv_se (c : cfg) (b : bool) : cfg := {|
+  g_reserved := g_reserved c; g_default_term := g_default_term c; g_term_repl := g_term_repl c;
+  g_csv_se := b;
+  g_hdr_pre := g_hdr_pre c; g_hdr_suf := g_hdr_suf c; g_line_sep := g_line_sep c; g_line_end := g_line_end c;
+  g_vkey_mid := g_vkey_mid c; g_vkey_end := g_vkey_end c; g_vwidth_extra := g_vwidth_extra c;
+  g_line_se := g_line_se c; g_text_repl := g_text_repl c; g_text_end := g_text_end c; g_text_se := g_text_se c
+|}.
 Definition pinned_ncfg : ncfg := {| n_chars := [32; 40; 41; 45]; n_sub := [95]; n_prefix := tx "x_" |}.
 End Pinned.
 
